@@ -336,10 +336,12 @@ class VMNetwork(object):
         netconfig = ref_interface.netconfig
         logging.debug("Reattaching %s to %s", interface, netconfig)
 
+        # reserve the new address first so that an exhausted range leaves the interface attached
+        new_ip = netconfig.get_allocatable_address()
         # detach from the current network
         del interface.netconfig.interfaces[interface.ip]
         # attach to the new network - with validation and proper attribute update
-        interface.ip = netconfig.get_allocatable_address()
+        interface.ip = new_ip
         netconfig.add_interface(interface)
         if proxy_interface is not None:
             # TODO: this invalidates the network config of the ref_interface
